@@ -2,7 +2,10 @@ package c08
 
 import (
 	"context"
+	"errors"
 	"fmt"
+	"sort"
+	"sync"
 	"time"
 
 	"go.opentelemetry.io/otel/attribute"
@@ -10,6 +13,7 @@ import (
 	sdkmetric "go.opentelemetry.io/otel/sdk/metric"
 	"go.opentelemetry.io/otel/sdk/metric/metricdata"
 	"go.opentelemetry.io/otel/sdk/resource"
+	"go.opentelemetry.io/otel/verif/internal/vk"
 )
 
 // setPool is the fixed pool of attribute sets; a case uses a prefix of it.
@@ -168,13 +172,24 @@ func takeSnap(rm *metricdata.ResourceMetrics) *snap {
 
 type bracket struct{ Before, After time.Time }
 
-// cycle is everything known about one collectBoth step.
+// cycle is everything known about one collection point of the history: a
+// collectBoth step, or one of the N serialised collections of a "burst" step
+// (N concurrent Collect calls on one reader; the other reader's single
+// collection of that step is attached to the first of the N cycles, all of
+// them being taken at the same point of the measurement history). A reader
+// that did not collect in the cycle has a nil snapshot.
 type cycle struct {
 	// model
-	Observed  []map[int]float64   // per observable instrument: set -> value its callbacks observe
-	Recorded  []map[int][]float64 // per sync instrument: set -> values recorded since the previous collectBoth
+	ObservedD []map[int]float64   // per observable instrument: set -> value the delta reader's callback round observes
+	ObservedC []map[int]float64   // the same for the cumulative reader's round
+	Plan      [][]Obs             // observation plan in force
+	Recorded  []map[int][]float64 // per sync instrument: set -> values recorded since the previous collection point
 	RanMulti  []bool              // multi callback slot registered (hence run) in this cycle
 	StrayObs  bool                // some callback observed an instrument it is not registered for
+	Failed    bool                // some callback that ran in this cycle returned an error
+	FailMode  map[int]int         // callback id -> mode in force
+	Burst     string              // "": collectBoth; "d" / "c": part of a concurrent step on that reader
+	BurstPos  int                 // position within the burst (0-based, serial order)
 	DeltaBr   bracket
 	CumBr     bracket
 	Delta     *snap
@@ -210,7 +225,16 @@ type world struct {
 	obsBr     bracket         // creation bracket of the observable instruments
 	scopeAt   [2]int          // number of collections that preceded the first instrument of the scope (-1: none yet)
 	cycles    []*cycle
-	pending   []map[int][]float64 // records of the running cycle
+	ambiguous bool // the serial order of some burst's outputs could not be told from their timestamps
+
+	// callback behaviour
+	failMode map[int]int // callback id -> 0 ok, 1 return an error before observing, 2 observe then return an error
+	failLeft map[int]int // callback id -> collection steps the mode still lasts (0: no limit)
+	mu       sync.Mutex
+	inBurst  bool
+	delay    int                 // vk.Perturb kind executed inside observing callbacks during a burst
+	inv      map[int]int         // callback id -> invocations during the running burst
+	pending  []map[int][]float64 // records of the running cycle
 }
 
 func (w *world) validSet(s int) bool { return s >= 0 && s < w.c.NSets && s < maxSets }
@@ -238,12 +262,47 @@ func (w *world) sanitizePlan(in []Obs) []Obs {
 	return out
 }
 
+var errPlanned = errors.New("c08: planned callback failure")
+
+// callback ids: observable instrument i -> i, multi slot j -> 100+j.
+func multiID(j int) int { return 100 + j }
+
+// tri is what a callback adds to every planned value in its k-th invocation
+// of a burst: 0, 1, 3, 6 (distinct values and distinct successive differences,
+// so that both cumulative and delta outputs tell the rounds apart).
+func tri(k int) float64 { return float64((k - 1) * k / 2) }
+
+// enter is called at the start of a callback invocation: it returns the
+// offset of this invocation's observations, the failure mode and the delay.
+func (w *world) enter(id int) (off float64, mode, delay int) {
+	w.mu.Lock()
+	defer w.mu.Unlock()
+	mode = w.failMode[id]
+	if w.inBurst {
+		w.inv[id]++
+		off, delay = tri(w.inv[id]), w.delay
+	}
+	return off, mode, delay
+}
+
 func (w *world) instCallbackI(i int) metric.Int64Callback {
 	return func(_ context.Context, o metric.Int64Observer) error {
+		off, mode, delay := w.enter(i)
+		if mode == 1 {
+			return errPlanned
+		}
+		first := true
 		for _, e := range w.plan[i] {
 			if e.Via == 0 {
-				o.Observe(int64(float64(e.V)), metric.WithAttributes(setPool[e.Set]...))
+				o.Observe(int64(float64(e.V))+int64(off), metric.WithAttributes(setPool[e.Set]...))
+				if first {
+					vk.Perturb(delay)
+					first = false
+				}
 			}
+		}
+		if mode == 2 {
+			return errPlanned
 		}
 		return nil
 	}
@@ -251,10 +310,22 @@ func (w *world) instCallbackI(i int) metric.Int64Callback {
 
 func (w *world) instCallbackF(i int) metric.Float64Callback {
 	return func(_ context.Context, o metric.Float64Observer) error {
+		off, mode, delay := w.enter(i)
+		if mode == 1 {
+			return errPlanned
+		}
+		first := true
 		for _, e := range w.plan[i] {
 			if e.Via == 0 {
-				o.Observe(float64(e.V), metric.WithAttributes(setPool[e.Set]...))
+				o.Observe(float64(e.V)+off, metric.WithAttributes(setPool[e.Set]...))
+				if first {
+					vk.Perturb(delay)
+					first = false
+				}
 			}
+		}
+		if mode == 2 {
+			return errPlanned
 		}
 		return nil
 	}
@@ -264,41 +335,69 @@ func (w *world) instCallbackF(i int) metric.Float64Callback {
 // not the instrument is in the slot's registration list.
 func (w *world) multiCallback(j int) metric.Callback {
 	return func(_ context.Context, o metric.Observer) error {
+		off, mode, delay := w.enter(multiID(j))
+		if mode == 1 {
+			return errPlanned
+		}
+		first := true
 		for i, d := range obsDefs {
 			for _, e := range w.plan[i] {
 				if e.Via != j+1 {
 					continue
 				}
 				if d.float {
-					o.ObserveFloat64(w.fObs[i], float64(e.V), metric.WithAttributes(setPool[e.Set]...))
+					o.ObserveFloat64(w.fObs[i], float64(e.V)+off, metric.WithAttributes(setPool[e.Set]...))
 				} else {
-					o.ObserveInt64(w.iObs[i], int64(float64(e.V)), metric.WithAttributes(setPool[e.Set]...))
+					o.ObserveInt64(w.iObs[i], int64(float64(e.V))+int64(off), metric.WithAttributes(setPool[e.Set]...))
+				}
+				if first {
+					vk.Perturb(delay)
+					first = false
 				}
 			}
+		}
+		if mode == 2 {
+			return errPlanned
 		}
 		return nil
 	}
 }
 
-// observedNow evaluates the model of what this cycle's callbacks observe.
-func (w *world) observedNow() (obs []map[int]float64, stray bool) {
+// observedNow evaluates the model of what the callbacks observe in their
+// round-th invocation (round 1 outside bursts): a callback in mode 1 observes
+// nothing, one in mode 2 observes everything before it fails.
+func (w *world) observedNow(round int) (obs []map[int]float64, stray, failed bool) {
 	obs = make([]map[int]float64, len(obsDefs))
+	off := tri(round)
 	for i, d := range obsDefs {
 		obs[i] = map[int]float64{}
+		if w.failMode[i] != 0 {
+			failed = true
+		}
 		for _, e := range w.plan[i] {
 			switch {
 			case e.Via == 0:
-				obs[i][e.Set] = modelValue(float64(e.V), d.float)
+				if w.failMode[i] != 1 {
+					obs[i][e.Set] = modelValue(float64(e.V), d.float) + off
+				}
 			case e.Via-1 < len(w.registered) && w.registered[e.Via-1]:
+				if w.failMode[multiID(e.Via-1)] == 1 {
+					continue
+				}
 				if contains(w.c.Multi[e.Via-1], i) {
-					obs[i][e.Set] = modelValue(float64(e.V), d.float)
+					obs[i][e.Set] = modelValue(float64(e.V), d.float) + off
 				} else {
 					stray = true
 				}
 			}
 		}
 	}
-	return obs, stray
+	for j, r := range w.registered {
+		if r && w.failMode[multiID(j)] != 0 {
+			failed = true
+		}
+	}
+	return obs, stray, failed
 }
 
 func deltaSelector(sdkmetric.InstrumentKind) metricdata.Temporality {
@@ -323,6 +422,7 @@ func execute(c Case) *world {
 	if len(w.c.Multi) > maxMulti {
 		w.c.Multi = w.c.Multi[:maxMulti]
 	}
+	w.failMode, w.failLeft, w.inv = map[int]int{}, map[int]int{}, map[int]int{}
 	w.plan = make([][]Obs, len(obsDefs))
 	w.registered = make([]bool, len(w.c.Multi))
 	w.regs = make([]metric.Registration, len(w.c.Multi))
@@ -492,10 +592,20 @@ func execute(c Case) *world {
 				w.fail("Unregister slot %d: %v", op.CB, err)
 			}
 			w.regs[op.CB], w.registered[op.CB] = nil, false
+		case "fail":
+			id := -1
+			switch {
+			case op.Via == 0 && op.Inst >= 0 && op.Inst < len(obsDefs):
+				id = op.Inst
+			case op.Via >= 1 && op.Via <= len(w.c.Multi):
+				id = multiID(op.Via - 1)
+			}
+			if id >= 0 && op.Mode >= 0 {
+				w.failMode[id] = op.Mode % 3
+				w.failLeft[id] = op.N // 0: until changed by another "fail" step
+			}
 		case "collect":
-			cy := &cycle{Recorded: w.pending, RanMulti: append([]bool{}, w.registered...)}
-			w.pending = newPending()
-			cy.Observed, cy.StrayObs = w.observedNow()
+			cy := w.newCycle(1, 1)
 			var h1, h2 bool
 			if op.CumFirst {
 				cy.cumRM, cy.Cum, cy.CumBr, cy.CumErr, cy.CumRMIs, h1 = collect(cumR, &cumRM, op.CRM)
@@ -506,6 +616,126 @@ func execute(c Case) *world {
 			}
 			cy.Handover = h1 || h2
 			w.cycles = append(w.cycles, cy)
+			w.pending = newPending()
+			w.stepDone()
+		case "burst":
+			// N concurrent Collect calls on one reader (each into its own fresh
+			// ResourceMetrics), one ordinary Collect on the other reader before
+			// or after them; no measurement in between.
+			n := op.N
+			if n < 2 {
+				n = 2
+			}
+			if n > 3 {
+				n = 3
+			}
+			burstR, otherR := deltaR, cumR
+			if op.R == "c" {
+				burstR, otherR = cumR, deltaR
+			}
+			type out struct {
+				rm  *metricdata.ResourceMetrics
+				sn  *snap
+				br  bracket
+				err error
+			}
+			one := func(r *sdkmetric.ManualReader) out {
+				o := out{rm: &metricdata.ResourceMetrics{}}
+				o.br.Before = time.Now()
+				o.err = r.Collect(ctx, o.rm)
+				o.br.After = time.Now()
+				o.sn = takeSnap(o.rm)
+				return o
+			}
+			first := w.newCycle(1, 1) // carries the records and the other reader's collection
+			var other out
+			if op.CumFirst {
+				other = one(otherR)
+			}
+			outs := make([]out, n)
+			w.mu.Lock()
+			w.inBurst, w.delay, w.inv = true, op.Delay, map[int]int{}
+			w.mu.Unlock()
+			vk.Parallel(n, func(g int) { outs[g] = one(burstR) })
+			w.mu.Lock()
+			w.inBurst, w.delay = false, 0
+			w.mu.Unlock()
+			if !op.CumFirst {
+				other = one(otherR)
+			}
+			// serial order of the burst's outputs: by the earliest point Time;
+			// outputs without points last.
+			when := func(o out) (time.Time, bool) {
+				var t time.Time
+				ok := false
+				for _, se := range o.sn.Series {
+					for _, p := range se.Pts {
+						if !ok || p.Time.Before(t) {
+							t, ok = p.Time, true
+						}
+					}
+				}
+				return t, ok
+			}
+			sort.SliceStable(outs, func(a, b int) bool {
+				ta, oka := when(outs[a])
+				tb, okb := when(outs[b])
+				if oka != okb {
+					return oka
+				}
+				return oka && ta.Before(tb)
+			})
+			for g := 1; g < n; g++ {
+				ta, oka := when(outs[g-1])
+				tb, okb := when(outs[g])
+				if oka && okb && ta.Equal(tb) {
+					w.ambiguous = true
+				}
+			}
+			// The serial position of an output without points cannot be told,
+			// so every collection of the burst is bracketed by the whole burst.
+			hull := outs[0].br
+			for _, o := range outs[1:] {
+				if o.br.Before.Before(hull.Before) {
+					hull.Before = o.br.Before
+				}
+				if o.br.After.After(hull.After) {
+					hull.After = o.br.After
+				}
+			}
+			for g := range outs {
+				outs[g].br = hull
+			}
+			for g := 0; g < n; g++ {
+				cy := first
+				if g > 0 {
+					cy = w.newCycle(g+1, g+1)
+					cy.Recorded = newPending()
+				}
+				cy.Burst, cy.BurstPos = op.R, g
+				if cy.Burst != "c" {
+					cy.Burst = "d"
+				}
+				if burstR == deltaR {
+					cy.deltaRM, cy.Delta, cy.DeltaBr, cy.DeltaErr, cy.DeltaRMIs = outs[g].rm, outs[g].sn, outs[g].br, outs[g].err, "fresh"
+					cy.ObservedC = nil
+				} else {
+					cy.cumRM, cy.Cum, cy.CumBr, cy.CumErr, cy.CumRMIs = outs[g].rm, outs[g].sn, outs[g].br, outs[g].err, "fresh"
+					cy.ObservedD = nil
+				}
+				if g == 0 {
+					if otherR == deltaR {
+						cy.deltaRM, cy.Delta, cy.DeltaBr, cy.DeltaErr, cy.DeltaRMIs = other.rm, other.sn, other.br, other.err, "fresh"
+						cy.ObservedD, _, _ = w.observedNow(1)
+					} else {
+						cy.cumRM, cy.Cum, cy.CumBr, cy.CumErr, cy.CumRMIs = other.rm, other.sn, other.br, other.err, "fresh"
+						cy.ObservedC, _, _ = w.observedNow(1)
+					}
+				}
+				w.cycles = append(w.cycles, cy)
+			}
+			w.pending = newPending()
+			w.stepDone()
 		}
 	}
 	// Outputs handed out earlier, read again now that the history is over.
@@ -594,5 +824,44 @@ func (w *world) createSync(i int) {
 	}
 	if err != nil {
 		w.fail("creating %s: %v", d.name, err)
+	}
+}
+
+// newCycle starts the model part of a cycle whose delta / cumulative callback
+// rounds are the given invocation numbers.
+func (w *world) newCycle(roundD, roundC int) *cycle {
+	cy := &cycle{Recorded: w.pending, RanMulti: append([]bool{}, w.registered...), Plan: append([][]Obs{}, w.plan...)}
+	cy.FailMode = map[int]int{}
+	for id, m := range w.failMode {
+		cy.FailMode[id] = m
+	}
+	cy.ObservedD, cy.StrayObs, cy.Failed = w.observedNow(roundD)
+	cy.ObservedC, _, _ = w.observedNow(roundC)
+	return cy
+}
+
+// failedAt: the strongest failure mode among the callbacks that observed
+// instrument i in the cycle (classification only).
+func (w *world) failedAt(cy *cycle, i int) int {
+	m := 0
+	for _, e := range cy.Plan[i] {
+		id := i
+		if e.Via >= 1 {
+			id = multiID(e.Via - 1)
+		}
+		m = max(m, cy.FailMode[id])
+	}
+	return m
+}
+
+// stepDone ends a collection step: time-limited failure modes run out.
+func (w *world) stepDone() {
+	for id, left := range w.failLeft {
+		if left > 0 {
+			if left == 1 {
+				w.failMode[id] = 0
+			}
+			w.failLeft[id] = left - 1
+		}
 	}
 }
